@@ -12,6 +12,16 @@ import os
 from vlib import common, evm, keccak, layoutgen, progs
 
 PROP = "C01"
+_ITEMS = None
+
+
+def HASH_ITEMS():
+    global _ITEMS
+    if _ITEMS is None:
+        from vlib import keccak
+        _ITEMS = sorted(keccak.slot_hash_table().items())[:400]
+    return _ITEMS
+
 PROFILES = ("rel", "dev")
 STAGES = ["analyze", "analyze", "analyze", "staged", "disassemble", "prepare_vm", "execute", "prepare_unifier"]
 
@@ -100,9 +110,15 @@ def shard(shard_no, nshards, seed, tier, extra):
             if rng.random() < 0.02:
                 ln = 24576
             code, feats = bytes(rng.getrandbits(8) for _ in range(ln)), {"random-bytes"}
-        elif r < 0.48:
+        elif r < 0.42:
             code, f = progs.sinks(rng, B + [len(B)])
             feats = {"sinks"} | f
+        elif r < 0.48:
+            # hostile constants in the operand shapes the lifting passes match on; literal keccak(n) leaves
+            if rng.random() < 0.75:
+                code, feats = progs.lift_shapes(rng, B)
+            else:
+                code, feats = progs.hash_constants(rng, HASH_ITEMS())
         elif r < 0.50:
             code, f = progs.deep_chain(rng)
             feats = {"deep-chain"}
